@@ -72,7 +72,7 @@ fn report_failure(args: &Args, rep: &mut Report, ast: &OpeningHoursExpression, h
 }
 
 pub fn run(args: &Args, rep: &mut Report) {
-    let n = args.cases(60_000, 600_000);
+    let n = args.cases(360_000, 3_000_000);
     let sweep = if args.thorough() { 800 } else { 0 };
     for k in 0..n {
         let cfg = canonical_cfg(args.thorough(), k);
